@@ -194,7 +194,7 @@ def plan(pid, tier, seed):
             return {'engines': [e for e in engines if e in keep], 'conformance': [c for c in conf if c['engine'] in keep]}
         fam = PROP_FAMILIES[pid]
         rest = [c for c in graph_conformance(tier, seed) if c['family'] in fam]
-        if pid == 'C03':
+        if pid in ('C01', 'C02', 'C03'):
             rest.append({'kind': 'shapes', 'variant': 'shapes', 'params': {}, 'family': 's'})
         if pid == 'C15':
             for b in (['all-dev', 'nofin-rel'] if tier == 'quick' else ['all-dev', 'all-rel', 'nofin-rel', 'default-dev']):
